@@ -222,6 +222,11 @@ class DB:
 
     def insert(self, pkg, tags):
         # type: (str, Set[str]) -> None
+        # a package that is inserted again is no longer listed under the tags
+        # it had before and does not have any more
+        for tag in self.db.get(pkg, ()):
+            if tag not in tags and tag in self.rdb:
+                self.rdb[tag].discard(pkg)
         self.db[pkg] = tags.copy()
         for tag in tags:
             if tag in self.rdb:
